@@ -351,6 +351,201 @@ WHITESPACE = _{ SPACE_SEPARATOR }
         uin.append("".join(urnd.choice(UNI_ALPHABET) for _ in range(urnd.randint(2, 6))))
     assert all(c in UNI_ALPHABET for x in uin for c in x), "s_uniprops: input outside UNI_ALPHABET"
     gs[-1]["inputs"] = sorted(set(uin))
+    # whole strings of which every Position / Span cut is run (suites.run_cases_for, C08): the stack rules get past
+    # their second element inside a shifted sub-input, the terminator of a skip_until lies beyond / across the cut
+    by = {g["gid"]: g for g in gs}
+    by["s_stack"]["subinputs"] = ["zabcabcbz", "aabab!bax", "ababbaabb"]
+    by["s_skipuntil"]["subinputs"] = ["xxabcabxab", "cbaabxxbab"]
+    return gs
+
+
+def insert_variants(bases, chars, upto=2):
+    """The sentences `bases` with up to `upto` skippable characters inserted at every gap (all insertions of one sentence
+    use the same character)."""
+    out = set()
+    for base in bases:
+        gaps = range(len(base) + 1)
+        for k in range(upto + 1):
+            for pos in itertools.combinations(gaps, k):
+                for ch in chars:
+                    out.add("".join((ch if j in pos else "") + (base[j] if j < len(base) else "") for j in range(len(base) + 1)))
+    return sorted(out)
+
+
+def case_variants(lit):
+    """Spellings of a case-insensitive literal: exact, Unicode upper / lower / swapped / title case, ASCII-only case
+    changes, and for every 2-byte character (lead byte L in 0xC2..0xDF, second byte S) the 3- / 4-byte characters whose
+    lead byte is L|0x20 and whose second byte is S (a byte-wise comparison that folds bit 5 of every byte confuses them)."""
+    out = [lit, lit.upper(), lit.lower(), lit.swapcase(), lit.title(), lit.casefold(),
+           "".join(c.upper() if c.isascii() else c for c in lit), "".join(c.lower() if c.isascii() else c for c in lit),
+           "".join(c.swapcase() if c.isascii() else c for c in lit),
+           "".join(c if c.isascii() else c.swapcase() for c in lit)]
+    for k, c in enumerate(lit):
+        bs = c.encode("utf-8")
+        if len(bs) == 2:
+            for tail in (b"\x80", b"\x80\x80", b"\xbf", b"\xbf\xbf"):
+                try:
+                    near = (bytes([bs[0] | 0x20, bs[1]]) + tail).decode("utf-8")
+                except UnicodeDecodeError:
+                    continue
+                out.append(lit[:k] + near + lit[k + 1:])
+                out.append(lit[:k] + near)
+        if len(bs) >= 3:
+            # the other direction: a shorter relative (lead byte without bit 5, same second byte) where it is a character
+            try:
+                out.append(lit[:k] + bytes([bs[0] & 0xDF, bs[1]]).decode("utf-8") + lit[k + 1:])
+            except UnicodeDecodeError:
+                pass
+    res = []
+    for x in out:
+        for y in (x, x + "a", "a" + x):
+            if y not in res:
+                res.append(y)
+    return res
+
+
+# boundaries of the ranges behind the ASCII built-ins (one below / first / last / one above), line ends, non-ASCII neighbours
+ASCII_EDGES = ["\x00", "\t", "\n", "\r", " ", "/", "0", "1", "2", "7", "8", "9", ":", "@", "A", "F", "G", "Z", "[", "`",
+               "a", "f", "g", "z", "{", "\x7f", "\u0080", "é", "٣", "Ａ"]
+
+
+def targeted_grammars():
+    """Grammars aimed at classes of breaking changes an independent review found unobservable (only part of the T-run
+    suites of checks/suites.py; the other harnesses keep using `systematic_grammars`).  Keys besides gid / text: see
+    suites.run_cases_for (`inputs`, `inputs_by_prefix`, `alpha`, `exh`, `subinputs`) and `noopt` (also derived with
+    `#[pest_optimizer = false]`, suites.suite_run_noopt)."""
+    gs = []
+
+    def add(name, text, **kw):
+        gs.append(dict({"gid": name, "text": text, "sub_targeted": False}, **kw))
+
+    # -- C05: the implicit skip (AtomicRepeat<RULE>: exactly ONE of WHITESPACE / COMMENT defined, so no Choice2 restores
+    # for it) whose rule touches the stack and fails afterwards; the stack is read after the skip.  Skip rules are @ / $
+    # or silent / normal (implicit skipping matches them atomically either way; nothing refers to them explicitly and
+    # they are no entry of an oracle case that F-WS could mask: see props.fws_case)
+    comment = '"<" ~ PUSH("="+) ~ "<" ~ (!(">" ~ PEEK ~ ">") ~ ANY)* ~ ">" ~ POP ~ ">"'
+    skipstack_inputs = ["a<=a", "ab<=ab", "ab<ab", "a<=<x>=>a", "a<=<x>=><a", "ab<==<b>=>>==><ab", "a<=a<=a", "a<a<=a", "a<=a<a", "ab <= ab",
+                        "a<=<>=><=a", "a<==<>==><=a", "a<=<=a", "b<=b<=", "b<b<=", "a<=<", "a<=<a", "a<<a", "a<==a", "a<=<>>=>a", "ba<=<=>=>=>ba",
+                        "a<=<>=>", "a<=a<=<>=>", "a<=a<=<", "a<=<>=><=<>=>a", "a<=<>=><=<a", "aa<=aa<=aa", "aa<=aa", "<=<x>=>", "<==<>=>>==>", "<=<", "<=<>=>a",
+                        "aa<=aaa", "ab<=ba", "aa<=<>=><aa"]
+    for suffix, kind in (("c", "_"), ("ca", "@"), ("cc", "$"), ("cn", "")):
+        add(f"s_skipstack_{suffix}", "\n".join([
+            'main = { PUSH(word) ~ op ~ POP }',
+            'word = @{ ("a" | "b")+ }',
+            'op = { "<=" | "<" }',
+            'lst = { PUSH(word) ~ (op ~ PEEK)* ~ POP }',
+            'fin = { PUSH(word) ~ op ~ PEEK_ALL }',
+            'cnt = ${ PUSH("a") ~ main ~ POP }',
+            'opt = { PUSH(word) ~ (op ~ "!")? ~ op ~ &POP ~ PEEK }',
+            'COMMENT = %s{ %s }' % (kind, comment)]) + "\n", inputs=skipstack_inputs, alpha=["a", "<", "=", ">"])
+    ws_inputs = ["a-a", "ab-ab", "a -a", "a- a", "a  -a", "a-  a", "a- -a", "a-a-a", "a-a-", "a-", "a--a", "a- - a", "b-b-b-b", "a-b", "a -", "a- ",
+                 "a#a", "a##a", "a#a#", "ab#ab", "a#", "a#b", "a##", "a#a#a#a", "a-#a", "a#-a"]
+    for suffix, kind in (("", "_"), ("a", "@")):
+        add(f"s_skipstack_w{suffix}", "\n".join([
+            'main = { PUSH(word) ~ "-" ~ POP }',
+            'word = @{ ("a" | "b")+ }',
+            'two = { PUSH(word) ~ ("-" ~ PEEK)+ }',
+            'neg = { PUSH(word) ~ !("-" ~ "-") ~ "-" ~ PEEK_ALL }',
+            'WHITESPACE = %s{ PUSH(" " | "-") ~ " " ~ DROP }' % kind]) + "\n", inputs=ws_inputs, alpha=["a", "-", " ", "b"])
+        add(f"s_skipstack_d{suffix}", "\n".join([
+            'main = { PUSH(word) ~ "#"? ~ PEEK }',
+            'word = @{ ("a" | "b")+ }',
+            'two = { PUSH("a") ~ PUSH("b") ~ "#" ~ POP ~ "#"? ~ POP }',
+            'rep = { PUSH(word) ~ ("#" ~ PEEK)* }',
+            'COMMENT = %s{ "#" ~ DROP ~ "#" }' % kind]) + "\n",
+            inputs=ws_inputs + ["ab#b#a", "ab#ba", "abb#b#ab", "ab##b#a", "a#a##a"], alpha=["a", "#", "b"])
+
+    # -- C05 / C19: the per-iteration restore of repetitions: iteration k pushes (or drops), then fails.  With pest's
+    # optimizer `e{n,m}` is unrolled into sequences of options; `noopt`: derived once more without it (RepMinMax & co.)
+    rep_inputs = ["ab", "aba", "abab", "ababa", "abababa", "abaa", "axbb", "axbxb", "axbxcxd", "axb", "ax", "axbx", "axbxc", "bxaxa", "axaxa", "axa",
+                  "qxq", "qxxq", "qq", "qx", "qxx", "axyaxya", "axyaxa", "axaxyaxya", "axyaxyaa", "axyaxaxy", "axaxy", "bxb", "bxab", "axbya", "axbxya",
+                  "axbxcc", "axbxcxdd", "axbxb", "bxa", "axb", "axbxba", "axbxcxcb", "axbxab", "axbxcxcba", "axaxyaa", "axyaxyaa"]
+    for suffix, ws in (("", ""), ("_w", 'WHITESPACE = _{ " " }\n')):
+        add("s_represtore" + suffix, "\n".join([
+            'r0 = { (PUSH("a") ~ "b"){1,3} ~ PEEK }',
+            'r1 = { (PUSH(ANY) ~ "x"){,2} ~ POP? }',
+            'r2 = { (PUSH(ANY) ~ "x"){2} ~ PEEK_ALL }',
+            'r3 = { (PUSH("a" | "b") ~ "x"){1,} ~ PEEK }',
+            'r4 = { PUSH("q") ~ (DROP ~ "x"){0,2} ~ PEEK }',
+            'r5 = @{ (PUSH(ANY) ~ "x"){1,2} ~ PEEK }',
+            'r6 = { (PUSH(ANY) ~ "x")* ~ PEEK }',
+            'r7 = { (PUSH(ANY) ~ "x")+ ~ POP }',
+            'r8 = { ((PUSH("a") ~ "x"){1,2} ~ "y"){1,2} ~ PEEK_ALL }',
+            'r9 = { (PUSH(ANY) ~ "x"){2,3} ~ POP ~ POP }',
+            'r10 = { PUSH("a") ~ (POP ~ "x" ~ PUSH("b")){,2} ~ PEEK }']) + "\n" + ws,
+            inputs=sorted(set(rep_inputs + ([x.replace("x", " x") for x in rep_inputs] + [x.replace("x", "x ") for x in rep_inputs] if ws else []))),
+            alpha=["a", "b", "x", "q"] + ([" "] if ws else ["y"]), noopt=True)
+
+    # -- C01 / C09: case-insensitive literals beyond ASCII (pest folds ASCII letters only, byte lengths must not change)
+    lits = ["é", "ÜBER", "Дa", "İx", "ß", "aé", "а", "σΣ", "ǅ", "éÉ"]
+    ins = []
+    for l in lits:
+        for v in case_variants(l):
+            if v not in ins:
+                ins.append(v)
+    ins += ["über", "ÜBER", "Über", "üBER", "i̇x", "İX", "ix", "Ix", "SS", "ss", "ẞ", "дa", "ДA", "дA", "㩀", "a㩀", "\U00030000", "É", "éa", "ÉA",
+            "σσ", "ΣΣ", "σς", "ǆ", "Ǆ", "é é", "x é㩀", "É x"]
+    add("s_insens_uni", "\n".join([
+        'i0 = { ^"é" }', 'i1 = { ^"ÜBER" }', 'i2 = { ^"Дa" }', 'i3 = { ^"İx" }', 'i4 = { ^"ß" }', 'i5 = { ^"aé" ~ ANY }',
+        'i6 = @{ ^"а" ~ ANY* }', 'i7 = { (^"é" | "x")+ }', 'i8 = { ^"σΣ" ~ ^"ǅ"? }', 'i9 = ${ !^"éÉ" ~ ANY ~ i0? }', 'WHITESPACE = _{ " " }']) + "\n",
+        inputs=sorted(set(ins)), alpha=["é", "É", "a", "A", "x"])
+
+    # -- C01: every ASCII built-in accepts and rejects something at both ends of its ranges; NEWLINE on every line end
+    edge_inputs = list(ASCII_EDGES) + [x + y for x in ("\r", "\n", "a", "0") for y in ("\r", "\n", "a", "0")]
+    edge_inputs += ["\r\n\r", "a\r\nb", "\n\r\n", "\r\r\n", "a\rb", "ab\n", "0\r\n0", "1\n2\r3\r\n4"]
+    valid = {"q1": "f701", "q2": "aZ0~"}
+    vary = {"q1": ["/09:@AFG`afg", "/0789", "/012", "019:/"], "q2": ["`az{AZ", "@AZ[az", "/09:@AZ[`az{", "\x00~\x7f\u0080é"]}
+    for r, base in valid.items():
+        for k, chars in enumerate(vary[r]):
+            for ch in chars:
+                edge_inputs.append(base[:k] + ch + base[k + 1:])
+    add("s_builtin2", "\n".join([
+        'dg = { ASCII_DIGIT }', 'nz = { ASCII_NONZERO_DIGIT }', 'bn = { ASCII_BIN_DIGIT }', 'oc = { ASCII_OCT_DIGIT }', 'hx = { ASCII_HEX_DIGIT }',
+        'lo = { ASCII_ALPHA_LOWER }', 'up = { ASCII_ALPHA_UPPER }', 'al = { ASCII_ALPHA }', 'an = { ASCII_ALPHANUMERIC }', 'asc = { ASCII }',
+        'nl = { NEWLINE }',
+        'q1 = { ASCII_HEX_DIGIT ~ ASCII_OCT_DIGIT ~ ASCII_BIN_DIGIT ~ ASCII_NONZERO_DIGIT }',
+        'q2 = { ASCII_ALPHA_LOWER ~ ASCII_ALPHA_UPPER ~ ASCII_ALPHANUMERIC ~ ASCII }',
+        'q3 = @{ (!NEWLINE ~ ANY)* ~ NEWLINE ~ ANY? }',
+        'q4 = { (ASCII_DIGIT | NEWLINE)+ }',
+        'q5 = { !(ASCII_ALPHANUMERIC | NEWLINE) ~ ASCII }']) + "\n", inputs=sorted(set(edge_inputs)), alpha=["a", "0", "\n"], exh=3)
+
+    # -- C07: lookahead operands (sequence / repetition / rule reference of every kind) inside rules of every kind that are
+    # reached from callers of every kind: the operand runs with the atomicity of the rule it is written in
+    skips = {"w": ('WHITESPACE = _{ " " }\n', (" ",)), "c": ('COMMENT = _{ "#" }\n', ("#",)),
+             "wc": ('WHITESPACE = _{ " " }\nCOMMENT = @{ "#" }\n', (" ", "#"))}
+    shapes = ['&(pa ~ "b") ~ ANY', '&(pa* ~ "c") ~ ANY', '!(pa ~ "b") ~ ANY'] + [f"&(pk{ki}) ~ ANY" for ki in range(5)]
+    for sname, (stext, chars) in skips.items():
+        lines = ['pa = { "a" }'] + [f'pk{ki} = {KINDS[ki]}{{ "a" ~ "b" }}' for ki in range(5)]
+        for km in range(5):
+            for k, body in enumerate(shapes):
+                lines.append(f"n{km}{k} = {KINDS[km]}{{ {body} }}")
+                for ko in range(5):
+                    lines.append(f'o{ko}{km}{k} = {KINDS[ko]}{{ "x" ~ n{km}{k} }}')
+        bases = ["ab", "ac", "aac", "abc", "b", "c"]
+        add(f"s_kindsp_{sname}", "\n".join(lines) + "\n" + stext, exh=2, alpha=["a", "b", "c", "x"] + list(chars)[:1],
+            inputs_by_prefix=[("n", insert_variants(bases, chars)), ("p", insert_variants(["ab", "a"], chars)),
+                              ("o", insert_variants(["x" + b for b in bases], chars))])
+
+    # -- C10: a sub-input parse that fails with nothing recorded (all sub-rules matched, then a literal fails; silent top
+    # rule; attempts only under the matching polarity): the location must still lie inside the sub-input
+    add("s_c10sub", "\n".join([
+        'a = { "x" }', 'b = { "y" }', 'main = { a ~ b ~ "!" }', 'sil = _{ a ~ b ~ "!" }',
+        'neg = { !(a ~ b ~ "!") ~ a ~ b ~ "?" ~ "!" }', 'opt = { a ~ (b ~ "!")? ~ "." }', 'two = { main ~ main }']) + "\n",
+        subinputs=["<<xy?>>", "ab\nxy?", "éxy!xy?", "x\r\nxy?!", "<xy!xy!>", "zxy!.x.y"], alpha=["x", "y", "!", "?"])
+
+    # -- C08: sub-inputs of long strings: every cut of strings of 10-16 characters (a CR|LF pair split by the end, the
+    # terminator of a skip_until just beyond the end, literals straddling the end, multi-byte characters next to both cuts)
+    add("s_sub", "\n".join([
+        's0 = @{ (!"end" ~ ANY)* }',
+        's1 = @{ (!("ab" | "\\r\\n") ~ ANY)* ~ ("ab" | NEWLINE) }',
+        's2 = { (NEWLINE | "a" | "é")+ }',
+        's3 = { "abcdefgh" | ^"ABCDefgh" ~ "é" | "abc" ~ &EOI | ^"ab" }',
+        's4 = { PUSH("ab" | "é" | NEWLINE) ~ "-"? ~ PEEK ~ POP? }',
+        "s5 = { ('a'..'f' | 'à'..'ÿ')+ ~ EOI }",
+        's6 = { (SOI ~ "a")? ~ (!"\\n" ~ ANY)* ~ EOI }',
+        's7 = { ANY ~ !SOI ~ (!"cd" ~ ANY)* ~ ("cd" | EOI) }',
+        's8 = { (!"end" ~ ANY)* ~ "end" }']) + "\n",
+        subinputs=["ab\r\nabcdefghend", "éab-ab\r\né-éend中", "ABCDefghé\rend\n", "aébcdàÿf\r\n\r\nab"], alpha=["a", "b", "e", "\n"], exh=3)
     return gs
 
 
@@ -546,6 +741,10 @@ FN_T = '''fn t_@GID@_@RULE@<'i>(e: &str, f: &str, a: usize, b: usize, i: &'i str
 '''
 FN_P = '''fn p_@GID@_@RULE@(i: &str) -> String { run_pest::<p_@GID@::Rule, p_@GID@::P>(p_@GID@::Rule::r#@RULE@, i) }
 '''
+# a SILENT entry rule: pest's `Parser::parse(Rule::r, input)` runs it too and returns the forest of its children, but
+# no end offset (run_pest's `end` is the first pair's): marked `pest=silent:…`, verdict and forest are compared (C01, C02)
+FN_PS = '''fn p_@GID@_@RULE@(i: &str) -> String { format!("silent:{}", run_pest::<p_@GID@::Rule, p_@GID@::P>(p_@GID@::Rule::r#@RULE@, i)) }
+'''
 
 
 def fill(t, **kw):
@@ -597,8 +796,8 @@ pest_derive = "=2.7.14"
             for (rule, kind) in g["rules"]:
                 code.append(fill(FN_T, GID=gid, RULE=rule))
                 pf = "None"
-                if use_pest and kind != "silent":
-                    code.append(fill(FN_P, GID=gid, RULE=rule))
+                if use_pest:
+                    code.append(fill(FN_PS if kind == "silent" else FN_P, GID=gid, RULE=rule))
                     pf = f"Some(p_{gid}_{rule} as fn(&str) -> String)"
                 arms.append(f'        ("{gid}", "{rule}") => Some((t_{gid}_{rule} as CaseFn, {pf})),')
         code.append("fn dispatch(gid: &str, rule: &str) -> Option<(CaseFn, Option<fn(&str) -> String>)> {\n    match (gid, rule) {\n" + "\n".join(arms) + "\n        _ => None,\n    }\n}\n")
@@ -614,11 +813,11 @@ pest_derive = "=2.7.14"
     return where
 
 
-def build_workspace(outdir, release=False, target=None):
+def build_workspace(outdir, release=False, target=None, keep_going=False):
     env = dict(ENV)
     if target:
         env["CARGO_TARGET_DIR"] = target
-    cmd = ["cargo", "build", "--offline", "-q"] + (["--release"] if release else [])
+    cmd = ["cargo", "build", "--offline", "-q"] + (["--release"] if release else []) + (["--keep-going"] if keep_going else [])
     p = subprocess.run(cmd, cwd=outdir, env=env, capture_output=True, text=True)
     return p.returncode, p.stderr
 
@@ -633,10 +832,18 @@ def inputs_for(g, rnd, maxlen, nrand, extra_alpha=()):
             alpha.append(c)
     if not alpha:
         alpha = ["a"]
-    # keep the exhaustive part small: at most 5 symbols, prefer the grammar's own
-    alpha = alpha[:5]
-    if " " not in alpha and re.search(r"WHITESPACE|COMMENT", g["text"]):
-        alpha = alpha[:4] + [" "]
+    if g.get("alpha"):
+        # the grammar names the alphabet of its exhaustive part itself (built-ins contribute no literal characters)
+        alpha = list(g["alpha"])
+    else:
+        # keep the exhaustive part small: at most 5 symbols, prefer the grammar's own
+        full = alpha
+        alpha = alpha[:5]
+        if " " not in alpha and re.search(r"WHITESPACE|COMMENT", g["text"]):
+            # a blank is one of the exhaustive symbols when the grammar knows it (or there is room): it must not push out
+            # the grammar's own skip character (COMMENT = _{ "#" } of the kind-nesting family)
+            if " " in full or len(alpha) < 5:
+                alpha = alpha[:4] + [" "]
     res = [""]
     frontier = [""]
     for _ in range(maxlen):
